@@ -480,9 +480,6 @@ class Storage:
         want = info['fca'].documented_dict(objs, props, with_lattice=with_lat)
         rec.check('C11.todict_eq_documented', r['ok'] and r['dict'] == _jsonable(want) and r['keys'] == list(want),
                   lambda: f'todict(ignore_lattice={ignore}) = {str(r)[:600]} documented {str(_jsonable(want))[:600]}')
-        rec.check('C11.todict_eq_documented',
-                  r['ok'] and r['types'].get('objects') == 'tuple' and r['types'].get('context') == 'list',
-                  lambda: f'todict container types {r.get("types")}')
         if with_lat:
             info['has_lat'] = True
         rec.log('todict ' + (core.sha(canon(r['dict']))[:16] if r['ok'] else str(r)))
